@@ -1,6 +1,7 @@
 """C19 — operations depend only on their argument; read-only ones never mutate it (DESIGN §5 C19)."""
 from __future__ import annotations
 
+import ast
 from typing import Any, Optional
 
 from ..absint import AObj, AbsMutation, AbsRaise, ClassRef, EnumVal, Interp, OrdInt
@@ -241,6 +242,7 @@ def check(pm: ProgramModel, ctx: Ctx) -> None:
                   "a new operation object analysing a second model gives the result of a fresh process",
                   bad=f"{ci.name}: the result for a model depends on a model analysed earlier by another "
                       f"operation object (process-wide state): {_short(after)} vs {_short(fresh)}")
+    after_edit(pm, ctx, mb, ops)
     genattr(pm, ctx, mb)
     ctx.floor(rule, "obligations", len(ctx.obligations), 30)
 
@@ -269,6 +271,66 @@ def _strip_ids(v: Any) -> Any:
 def _short(v: Any) -> str:
     s = repr(v)
     return s if len(s) < 90 else s[:60] + f"...<{len(s)} chars>"
+
+
+def after_edit(pm: ProgramModel, ctx: Ctx, mb: ModelBuilder, ops: list[Any]) -> None:
+    """A model is a mutable tree. Each operation is executed, the tree is then edited in place the way the readers build
+    it (a child appended to an existing group and wired to its parent; a new mandatory child attached with
+    add_relation; a sub-tree detached) and a new operation object is executed on the same model object: the result
+    must be the one a fresh process gives for an independently built model of the edited shape."""
+    from ..absint import reset_global_state
+
+    def build(edited: bool) -> tuple[AObj, dict[str, Any]]:
+        F = mb.feature
+        root, a, b = F("R"), F("A"), F("B")
+        g1, g2, m1, o1 = F("G1"), F("G2"), F("M1"), F("O1")
+        mb.relation(root, [a], 1, 1)
+        mb.relation(root, [b], 0, 1)
+        grp = mb.relation(a, [g1, g2], 1, 1)
+        mb.relation(a, [m1], 1, 1)
+        rb = mb.relation(b, [o1], 0, 1)
+        fm = mb.model(root, [])
+        h = {"a": a, "b": b, "grp": grp, "rb": rb}
+        if edited:
+            apply_edit(fm, h)
+        return fm, h
+
+    def apply_edit(fm: AObj, h: dict[str, Any]) -> None:
+        g3 = mb.feature("G3", parent=h["a"])
+        h["grp"]._f["children"].append(g3)                 # another member of the existing group
+        mb.relation(h["a"], [mb.feature("M2")], 1, 1)       # a new mandatory child, attached with add_relation
+        h["b"]._f["relations"].remove(h["rb"])              # a sub-tree detached
+
+    for ci in ops:
+        if ci.name in MUTATING:
+            continue
+        where = loc(ci.unit.path, ci.node)
+        try:
+            reset_global_state()
+            fm, h = build(False)
+            it = Interp(pm, max_depth=60)
+            natives(it)
+            op = setup_op(pm, it, ci, mb, fm)
+            it.call(pm.method(ci, "execute"), [op, fm])
+            apply_edit(fm, h)
+            op2 = setup_op(pm, it, ci, mb, fm)
+            it.call(pm.method(ci, "execute"), [op2, fm])
+            after = canon(it.call(pm.method(ci, "get_result"), [op2]))
+            reset_global_state()
+            fm2, _ = build(True)
+            it2 = Interp(pm, max_depth=60)
+            natives(it2)
+            op3 = setup_op(pm, it2, ci, mb, fm2)
+            it2.call(pm.method(ci, "execute"), [op3, fm2])
+            fresh = canon(it2.call(pm.method(ci, "get_result"), [op3]))
+        except (AbsRaise, AbsMutation) as exc:
+            ctx.violation("C19-AFTER-EDIT", f"after-edit:{ci.name}", where, f"{ci.name}: raises {exc.what}")
+            continue
+        ctx.check(_strip_ids(after) == _strip_ids(fresh), "C19-AFTER-EDIT", f"after-edit:{ci.name}", where,
+                  "the result for a model edited in place after a first analysis is the result for the edited model",
+                  bad=f"{ci.name}: after an in-place edit of the model (group member added, mandatory child added, sub-tree "
+                      f"detached) the result is still (partly) the one of the model as it was: {_short(after)} vs {_short(fresh)}")
+    reset_global_state()
 
 
 def genattr(pm: ProgramModel, ctx: Ctx, mb: ModelBuilder) -> None:
@@ -366,12 +428,35 @@ def genattr(pm: ProgramModel, ctx: Ctx, mb: ModelBuilder) -> None:
         ctx.check(not bad, rule, f"adds-exactly-one:only_leaf={only_leaf}", where,
                   "each targeted feature lacking the attribute gets exactly one (name, parent, value "
                   "from the domain); others untouched", bad="; ".join(bad[:3]))
+    # (a') the attribute that ends up on the feature holds the drawn value itself (no conversion on the way) ---
+    for key, elems in (("letters", ["a", "b"]), ("numeric-looking", ["1", "2", "3"]), ("mixed", ["7", "x", "2.5"])):
+        fm2 = rich_model(mb)
+        dom2 = AObj("Domain", range_list=[], element_list=list(elems))
+        it = mk()
+        try:
+            it.call(gen, [fm2, "rnd", dom2, False])
+            bad4 = []
+            for f in _features(fm2):
+                for a in f._f["attributes"]:
+                    if not (isinstance(a, AObj) and a._f.get("name") == "rnd"):
+                        continue
+                    try:
+                        v = it.getattr(a, "default_value", ast.Constant(value=None), None)
+                    except (AbsRaise, AnalysisError):
+                        v = a._f.get("default_value")
+                    if not any(type(v) is type(e) and v == e for e in elems):
+                        bad4.append(f"feature {f._f['name']}: attribute value {v!r} is not one of the listed elements {elems}")
+        except (AbsRaise, AbsMutation) as exc:
+            bad4 = [f"raises {exc.what}"]
+        ctx.check(not bad4, rule, f"stored-value-is-drawn-value:{key}", where,
+                  f"the generated attribute holds one of the listed elements {elems}", bad="; ".join(bad4[:2]))
     # (b) value drawn from the domain ---------------------------------------------------------------
     def dom_of(ranges: list[tuple[Any, Any]], elems: list[Any]) -> AObj:
         return AObj("Domain", range_list=[AObj("Range", min_value=a, max_value=b) for a, b in ranges],
                     element_list=list(elems))
     cases = {
         "elements": (dom_of([], ["a", "b", "c"]), lambda v: v in ("a", "b", "c")),
+        "numeric-looking-elements": (dom_of([], ["1", "2", "3"]), lambda v: isinstance(v, str) and v in ("1", "2", "3")),
         "int-range": (dom_of([(2, 9)], []), lambda v: v == ("randint", 2, 9)),
         "float-range": (dom_of([(0.5, 2.25)], []), lambda v: isinstance(v, float)),
         "mixed": (dom_of([(2, 9)], ["a"]), lambda v: v == "a" or v == ("randint", 2, 9)),
